@@ -23,6 +23,10 @@ structure InvW (s : State) : Prop where
   k3 : ∀ t r, waitish (s.pc t) = some r → (s.st r = .success ∨ s.st r = .closed) → s.wakes t = 0 →
         t ∈ wl (s.pc (s.wakeBy r))
   k5 : ∀ t r, liveWait (s.pc t) = some r → s.st r ≠ .cancelled
+  /-- a `RecvFuture` that is inside `poll` while still registered (it was polled again although WAITING) and whose
+  record is CASed to CLOSED meanwhile is owed that wake as well: it may return Pending from this poll -/
+  k3c : ∀ t r, (s.pc t = .arTry r ∨ s.pc t = .arReg r) → r ∈ s.war → s.st r = .closed → s.wakes t = 0 →
+        t ∈ wl (s.pc (s.wakeBy r))
 
 theorem invW_init (cap : Nat) : InvW (init cap) := by
   constructor <;> simp [init, waitish, liveWait]
@@ -35,216 +39,216 @@ attribute [local grind ←] List.Nodup.erase nodup_filter
 
 theorem invW_sTry {s : State} {t : Nat} {v : Nat} {r : Nat} (hk : InvK s) (hr : InvR s) (hi : InvW s) (hpc : s.pc t = .sTry v r) : InvW (stepSTry s t v r) := by
   obtain ⟨hk1, hk2, hk3, hk4, hk5, hk6, hk7, hk8⟩ := hk
-  obtain ⟨hr1, hr2, hr3, hr4, hr5, hr6, hr7⟩ := hr
-  obtain ⟨h1, h2⟩ := hi
+  obtain ⟨hr1, hr2, hr3, hr4, hr5, hr6, hr7, hr8⟩ := hr
+  obtain ⟨h1, h2, h3⟩ := hi
   unfold stepSTry
   repeat' split
   wk_close
 
 theorem invW_sReg {s : State} {t : Nat} {v : Nat} {r : Nat} (hk : InvK s) (hr : InvR s) (hi : InvW s) (hpc : s.pc t = .sReg v r) : InvW (stepSReg s t v r) := by
   obtain ⟨hk1, hk2, hk3, hk4, hk5, hk6, hk7, hk8⟩ := hk
-  obtain ⟨hr1, hr2, hr3, hr4, hr5, hr6, hr7⟩ := hr
-  obtain ⟨h1, h2⟩ := hi
+  obtain ⟨hr1, hr2, hr3, hr4, hr5, hr6, hr7, hr8⟩ := hr
+  obtain ⟨h1, h2, h3⟩ := hi
   unfold stepSReg
   repeat' split
   wk_close
 
 theorem invW_sWait {s : State} {t : Nat} {v : Nat} {r : Nat} (hk : InvK s) (hr : InvR s) (hi : InvW s) (hpc : s.pc t = .sWait v r) : InvW (stepSWait s t v r) := by
   obtain ⟨hk1, hk2, hk3, hk4, hk5, hk6, hk7, hk8⟩ := hk
-  obtain ⟨hr1, hr2, hr3, hr4, hr5, hr6, hr7⟩ := hr
-  obtain ⟨h1, h2⟩ := hi
+  obtain ⟨hr1, hr2, hr3, hr4, hr5, hr6, hr7, hr8⟩ := hr
+  obtain ⟨h1, h2, h3⟩ := hi
   unfold stepSWait
   repeat' split
   wk_close
 
 theorem invW_sUnl {s : State} {t : Nat} {v : Nat} {r : Nat} {c : Bool} (hk : InvK s) (hr : InvR s) (hi : InvW s) (hpc : s.pc t = .sUnl v r c) : InvW (stepSUnl s t v r c) := by
   obtain ⟨hk1, hk2, hk3, hk4, hk5, hk6, hk7, hk8⟩ := hk
-  obtain ⟨hr1, hr2, hr3, hr4, hr5, hr6, hr7⟩ := hr
-  obtain ⟨h1, h2⟩ := hi
+  obtain ⟨hr1, hr2, hr3, hr4, hr5, hr6, hr7, hr8⟩ := hr
+  obtain ⟨h1, h2, h3⟩ := hi
   unfold stepSUnl
   repeat' split
   wk_close
 
 theorem invW_tsTry {s : State} {t : Nat} {v : Nat} (hk : InvK s) (hr : InvR s) (hi : InvW s) (hpc : s.pc t = .tsTry v) : InvW (stepTsTry s t v) := by
   obtain ⟨hk1, hk2, hk3, hk4, hk5, hk6, hk7, hk8⟩ := hk
-  obtain ⟨hr1, hr2, hr3, hr4, hr5, hr6, hr7⟩ := hr
-  obtain ⟨h1, h2⟩ := hi
+  obtain ⟨hr1, hr2, hr3, hr4, hr5, hr6, hr7, hr8⟩ := hr
+  obtain ⟨h1, h2, h3⟩ := hi
   unfold stepTsTry
   repeat' split
   wk_close
 
 theorem invW_rTry {s : State} {t : Nat} {r : Nat} (hk : InvK s) (hr : InvR s) (hi : InvW s) (hpc : s.pc t = .rTry r) : InvW (stepRTry s t r) := by
   obtain ⟨hk1, hk2, hk3, hk4, hk5, hk6, hk7, hk8⟩ := hk
-  obtain ⟨hr1, hr2, hr3, hr4, hr5, hr6, hr7⟩ := hr
-  obtain ⟨h1, h2⟩ := hi
+  obtain ⟨hr1, hr2, hr3, hr4, hr5, hr6, hr7, hr8⟩ := hr
+  obtain ⟨h1, h2, h3⟩ := hi
   unfold stepRTry
   repeat' split
   wk_close
 
 theorem invW_rReg {s : State} {t : Nat} {r : Nat} (hk : InvK s) (hr : InvR s) (hi : InvW s) (hpc : s.pc t = .rReg r) : InvW (stepRReg s t r) := by
   obtain ⟨hk1, hk2, hk3, hk4, hk5, hk6, hk7, hk8⟩ := hk
-  obtain ⟨hr1, hr2, hr3, hr4, hr5, hr6, hr7⟩ := hr
-  obtain ⟨h1, h2⟩ := hi
+  obtain ⟨hr1, hr2, hr3, hr4, hr5, hr6, hr7, hr8⟩ := hr
+  obtain ⟨h1, h2, h3⟩ := hi
   unfold stepRReg
   repeat' split
   wk_close
 
 theorem invW_rWait {s : State} {t : Nat} {r : Nat} (hk : InvK s) (hr : InvR s) (hi : InvW s) (hpc : s.pc t = .rWait r) : InvW (stepRWait s t r) := by
   obtain ⟨hk1, hk2, hk3, hk4, hk5, hk6, hk7, hk8⟩ := hk
-  obtain ⟨hr1, hr2, hr3, hr4, hr5, hr6, hr7⟩ := hr
-  obtain ⟨h1, h2⟩ := hi
+  obtain ⟨hr1, hr2, hr3, hr4, hr5, hr6, hr7, hr8⟩ := hr
+  obtain ⟨h1, h2, h3⟩ := hi
   unfold stepRWait
   repeat' split
   wk_close
 
 theorem invW_rUnl {s : State} {t : Nat} {r : Nat} (hk : InvK s) (hr : InvR s) (hi : InvW s) (hpc : s.pc t = .rUnl r) : InvW (stepRUnl s t r) := by
   obtain ⟨hk1, hk2, hk3, hk4, hk5, hk6, hk7, hk8⟩ := hk
-  obtain ⟨hr1, hr2, hr3, hr4, hr5, hr6, hr7⟩ := hr
-  obtain ⟨h1, h2⟩ := hi
+  obtain ⟨hr1, hr2, hr3, hr4, hr5, hr6, hr7, hr8⟩ := hr
+  obtain ⟨h1, h2, h3⟩ := hi
   unfold stepRUnl
   repeat' split
   wk_close
 
 theorem invW_trTry {s : State} {t : Nat} (hk : InvK s) (hr : InvR s) (hi : InvW s) (hpc : s.pc t = .trTry) : InvW (stepTrTry s t ) := by
   obtain ⟨hk1, hk2, hk3, hk4, hk5, hk6, hk7, hk8⟩ := hk
-  obtain ⟨hr1, hr2, hr3, hr4, hr5, hr6, hr7⟩ := hr
-  obtain ⟨h1, h2⟩ := hi
+  obtain ⟨hr1, hr2, hr3, hr4, hr5, hr6, hr7, hr8⟩ := hr
+  obtain ⟨h1, h2, h3⟩ := hi
   unfold stepTrTry
   repeat' split
   wk_close
 
 theorem invW_toTry {s : State} {t : Nat} {r : Nat} (hk : InvK s) (hr : InvR s) (hi : InvW s) (hpc : s.pc t = .toTry r) : InvW (stepToTry s t r) := by
   obtain ⟨hk1, hk2, hk3, hk4, hk5, hk6, hk7, hk8⟩ := hk
-  obtain ⟨hr1, hr2, hr3, hr4, hr5, hr6, hr7⟩ := hr
-  obtain ⟨h1, h2⟩ := hi
+  obtain ⟨hr1, hr2, hr3, hr4, hr5, hr6, hr7, hr8⟩ := hr
+  obtain ⟨h1, h2, h3⟩ := hi
   unfold stepToTry
   repeat' split
   wk_close
 
 theorem invW_toReg {s : State} {t : Nat} {r : Nat} (hk : InvK s) (hr : InvR s) (hi : InvW s) (hpc : s.pc t = .toReg r) : InvW (stepToReg s t r) := by
   obtain ⟨hk1, hk2, hk3, hk4, hk5, hk6, hk7, hk8⟩ := hk
-  obtain ⟨hr1, hr2, hr3, hr4, hr5, hr6, hr7⟩ := hr
-  obtain ⟨h1, h2⟩ := hi
+  obtain ⟨hr1, hr2, hr3, hr4, hr5, hr6, hr7, hr8⟩ := hr
+  obtain ⟨h1, h2, h3⟩ := hi
   unfold stepToReg
   repeat' split
   wk_close
 
 theorem invW_toRetry {s : State} {t : Nat} {r : Nat} (hk : InvK s) (hr : InvR s) (hi : InvW s) (hpc : s.pc t = .toRetry r) : InvW (stepToRetry s t r) := by
   obtain ⟨hk1, hk2, hk3, hk4, hk5, hk6, hk7, hk8⟩ := hk
-  obtain ⟨hr1, hr2, hr3, hr4, hr5, hr6, hr7⟩ := hr
-  obtain ⟨h1, h2⟩ := hi
+  obtain ⟨hr1, hr2, hr3, hr4, hr5, hr6, hr7, hr8⟩ := hr
+  obtain ⟨h1, h2, h3⟩ := hi
   unfold stepToRetry
   repeat' split
   wk_close
 
 theorem invW_toCas {s : State} {t : Nat} {r : Nat} (hk : InvK s) (hr : InvR s) (hi : InvW s) (hpc : s.pc t = .toCas r) : InvW (stepToCas s t r) := by
   obtain ⟨hk1, hk2, hk3, hk4, hk5, hk6, hk7, hk8⟩ := hk
-  obtain ⟨hr1, hr2, hr3, hr4, hr5, hr6, hr7⟩ := hr
-  obtain ⟨h1, h2⟩ := hi
+  obtain ⟨hr1, hr2, hr3, hr4, hr5, hr6, hr7, hr8⟩ := hr
+  obtain ⟨h1, h2, h3⟩ := hi
   unfold stepToCas
   repeat' split
   wk_close
 
 theorem invW_toUnl {s : State} {t : Nat} {r : Nat} (hk : InvK s) (hr : InvR s) (hi : InvW s) (hpc : s.pc t = .toUnl r) : InvW (stepToUnl s t r) := by
   obtain ⟨hk1, hk2, hk3, hk4, hk5, hk6, hk7, hk8⟩ := hk
-  obtain ⟨hr1, hr2, hr3, hr4, hr5, hr6, hr7⟩ := hr
-  obtain ⟨h1, h2⟩ := hi
+  obtain ⟨hr1, hr2, hr3, hr4, hr5, hr6, hr7, hr8⟩ := hr
+  obtain ⟨h1, h2, h3⟩ := hi
   unfold stepToUnl
   repeat' split
   wk_close
 
 theorem invW_toFin {s : State} {t : Nat} {r : Nat} (hk : InvK s) (hr : InvR s) (hi : InvW s) (hpc : s.pc t = .toFin r) : InvW (stepToFin s t r) := by
   obtain ⟨hk1, hk2, hk3, hk4, hk5, hk6, hk7, hk8⟩ := hk
-  obtain ⟨hr1, hr2, hr3, hr4, hr5, hr6, hr7⟩ := hr
-  obtain ⟨h1, h2⟩ := hi
+  obtain ⟨hr1, hr2, hr3, hr4, hr5, hr6, hr7, hr8⟩ := hr
+  obtain ⟨h1, h2, h3⟩ := hi
   unfold stepToFin
   repeat' split
   wk_close
 
 theorem invW_asTry {s : State} {t : Nat} {v : Nat} {r : Nat} (hk : InvK s) (hr : InvR s) (hi : InvW s) (hpc : s.pc t = .asTry v r) : InvW (stepAsTry s t v r) := by
   obtain ⟨hk1, hk2, hk3, hk4, hk5, hk6, hk7, hk8⟩ := hk
-  obtain ⟨hr1, hr2, hr3, hr4, hr5, hr6, hr7⟩ := hr
-  obtain ⟨h1, h2⟩ := hi
+  obtain ⟨hr1, hr2, hr3, hr4, hr5, hr6, hr7, hr8⟩ := hr
+  obtain ⟨h1, h2, h3⟩ := hi
   unfold stepAsTry
   repeat' split
   wk_close
 
 theorem invW_asReg {s : State} {t : Nat} {v : Nat} {r : Nat} (hk : InvK s) (hr : InvR s) (hi : InvW s) (hpc : s.pc t = .asReg v r) : InvW (stepAsReg s t v r) := by
   obtain ⟨hk1, hk2, hk3, hk4, hk5, hk6, hk7, hk8⟩ := hk
-  obtain ⟨hr1, hr2, hr3, hr4, hr5, hr6, hr7⟩ := hr
-  obtain ⟨h1, h2⟩ := hi
+  obtain ⟨hr1, hr2, hr3, hr4, hr5, hr6, hr7, hr8⟩ := hr
+  obtain ⟨h1, h2, h3⟩ := hi
   unfold stepAsReg
   repeat' split
   wk_close
 
 theorem invW_asUnl {s : State} {t : Nat} {v : Nat} {r : Nat} {c : Bool} (hk : InvK s) (hr : InvR s) (hi : InvW s) (hpc : s.pc t = .asUnl v r c) : InvW (stepAsUnl s t v r c) := by
   obtain ⟨hk1, hk2, hk3, hk4, hk5, hk6, hk7, hk8⟩ := hk
-  obtain ⟨hr1, hr2, hr3, hr4, hr5, hr6, hr7⟩ := hr
-  obtain ⟨h1, h2⟩ := hi
+  obtain ⟨hr1, hr2, hr3, hr4, hr5, hr6, hr7, hr8⟩ := hr
+  obtain ⟨h1, h2, h3⟩ := hi
   unfold stepAsUnl
   repeat' split
   wk_close
 
 theorem invW_asRef {s : State} {t : Nat} {v : Nat} {r : Nat} (hk : InvK s) (hr : InvR s) (hi : InvW s) (hpc : s.pc t = .asRef v r) : InvW (stepAsRef s t v r) := by
   obtain ⟨hk1, hk2, hk3, hk4, hk5, hk6, hk7, hk8⟩ := hk
-  obtain ⟨hr1, hr2, hr3, hr4, hr5, hr6, hr7⟩ := hr
-  obtain ⟨h1, h2⟩ := hi
+  obtain ⟨hr1, hr2, hr3, hr4, hr5, hr6, hr7, hr8⟩ := hr
+  obtain ⟨h1, h2, h3⟩ := hi
   unfold stepAsRef
   repeat' split
   wk_close
 
 theorem invW_fdUnlS {s : State} {t : Nat} {v : Nat} {r : Nat} (hk : InvK s) (hr : InvR s) (hi : InvW s) (hpc : s.pc t = .fdUnlS v r) : InvW (stepFdUnlS s t v r) := by
   obtain ⟨hk1, hk2, hk3, hk4, hk5, hk6, hk7, hk8⟩ := hk
-  obtain ⟨hr1, hr2, hr3, hr4, hr5, hr6, hr7⟩ := hr
-  obtain ⟨h1, h2⟩ := hi
+  obtain ⟨hr1, hr2, hr3, hr4, hr5, hr6, hr7, hr8⟩ := hr
+  obtain ⟨h1, h2, h3⟩ := hi
   unfold stepFdUnlS
   repeat' split
   wk_close
 
 theorem invW_arTry {s : State} {t : Nat} {r : Nat} (hk : InvK s) (hr : InvR s) (hi : InvW s) (hpc : s.pc t = .arTry r) : InvW (stepArTry s t r) := by
   obtain ⟨hk1, hk2, hk3, hk4, hk5, hk6, hk7, hk8⟩ := hk
-  obtain ⟨hr1, hr2, hr3, hr4, hr5, hr6, hr7⟩ := hr
-  obtain ⟨h1, h2⟩ := hi
+  obtain ⟨hr1, hr2, hr3, hr4, hr5, hr6, hr7, hr8⟩ := hr
+  obtain ⟨h1, h2, h3⟩ := hi
   unfold stepArTry
   repeat' split
   wk_close
 
 theorem invW_arReg {s : State} {t : Nat} {r : Nat} (hk : InvK s) (hr : InvR s) (hi : InvW s) (hpc : s.pc t = .arReg r) : InvW (stepArReg s t r) := by
   obtain ⟨hk1, hk2, hk3, hk4, hk5, hk6, hk7, hk8⟩ := hk
-  obtain ⟨hr1, hr2, hr3, hr4, hr5, hr6, hr7⟩ := hr
-  obtain ⟨h1, h2⟩ := hi
+  obtain ⟨hr1, hr2, hr3, hr4, hr5, hr6, hr7, hr8⟩ := hr
+  obtain ⟨h1, h2, h3⟩ := hi
   unfold stepArReg
   repeat' split
   wk_close
 
 theorem invW_arUnl {s : State} {t : Nat} {r : Nat} (hk : InvK s) (hr : InvR s) (hi : InvW s) (hpc : s.pc t = .arUnl r) : InvW (stepArUnl s t r) := by
   obtain ⟨hk1, hk2, hk3, hk4, hk5, hk6, hk7, hk8⟩ := hk
-  obtain ⟨hr1, hr2, hr3, hr4, hr5, hr6, hr7⟩ := hr
-  obtain ⟨h1, h2⟩ := hi
+  obtain ⟨hr1, hr2, hr3, hr4, hr5, hr6, hr7, hr8⟩ := hr
+  obtain ⟨h1, h2, h3⟩ := hi
   unfold stepArUnl
   repeat' split
   wk_close
 
 theorem invW_fdUnlR {s : State} {t : Nat} {r : Nat} (hk : InvK s) (hr : InvR s) (hi : InvW s) (hpc : s.pc t = .fdUnlR r) : InvW (stepFdUnlR s t r) := by
   obtain ⟨hk1, hk2, hk3, hk4, hk5, hk6, hk7, hk8⟩ := hk
-  obtain ⟨hr1, hr2, hr3, hr4, hr5, hr6, hr7⟩ := hr
-  obtain ⟨h1, h2⟩ := hi
+  obtain ⟨hr1, hr2, hr3, hr4, hr5, hr6, hr7, hr8⟩ := hr
+  obtain ⟨h1, h2, h3⟩ := hi
   unfold stepFdUnlR
   repeat' split
   wk_close
 
 theorem invW_hWake {s : State} {t : Nat} {ws : List Nat} (hk : InvK s) (hr : InvR s) (hi : InvW s) (hpc : s.pc t = .hWake ws) : InvW (stepHWake s t ws) := by
   obtain ⟨hk1, hk2, hk3, hk4, hk5, hk6, hk7, hk8⟩ := hk
-  obtain ⟨hr1, hr2, hr3, hr4, hr5, hr6, hr7⟩ := hr
-  obtain ⟨h1, h2⟩ := hi
+  obtain ⟨hr1, hr2, hr3, hr4, hr5, hr6, hr7, hr8⟩ := hr
+  obtain ⟨h1, h2, h3⟩ := hi
   unfold stepHWake
   repeat' split
   wk_close
 
 theorem invW_sPark {s s' : State} {t : Nat} {v : Nat} {r : Nat} (hk : InvK s) (hr : InvR s) (hi : InvW s) (hpc : s.pc t = .sPark v r) (h : stepSPark s t v r = some s') : InvW s' := by
   obtain ⟨hk1, hk2, hk3, hk4, hk5, hk6, hk7, hk8⟩ := hk
-  obtain ⟨hr1, hr2, hr3, hr4, hr5, hr6, hr7⟩ := hr
-  obtain ⟨h1, h2⟩ := hi
+  obtain ⟨hr1, hr2, hr3, hr4, hr5, hr6, hr7, hr8⟩ := hr
+  obtain ⟨h1, h2, h3⟩ := hi
   unfold stepSPark at h
   repeat' split at h
   all_goals (simp at h; try subst h)
@@ -252,8 +256,8 @@ theorem invW_sPark {s s' : State} {t : Nat} {v : Nat} {r : Nat} (hk : InvK s) (h
 
 theorem invW_rPark {s s' : State} {t : Nat} {r : Nat} (hk : InvK s) (hr : InvR s) (hi : InvW s) (hpc : s.pc t = .rPark r) (h : stepRPark s t r = some s') : InvW s' := by
   obtain ⟨hk1, hk2, hk3, hk4, hk5, hk6, hk7, hk8⟩ := hk
-  obtain ⟨hr1, hr2, hr3, hr4, hr5, hr6, hr7⟩ := hr
-  obtain ⟨h1, h2⟩ := hi
+  obtain ⟨hr1, hr2, hr3, hr4, hr5, hr6, hr7, hr8⟩ := hr
+  obtain ⟨h1, h2, h3⟩ := hi
   unfold stepRPark at h
   repeat' split at h
   all_goals (simp at h; try subst h)
@@ -261,8 +265,8 @@ theorem invW_rPark {s s' : State} {t : Nat} {r : Nat} (hk : InvK s) (hr : InvR s
 
 theorem invW_closeS {s s' : State} {t : Nat} (hk : InvK s) (hr : InvR s) (hi : InvW s) (hpc : s.pc t = .hCloseS) (h : stepCloseS s t  = some s') : InvW s' := by
   obtain ⟨hk1, hk2, hk3, hk4, hk5, hk6, hk7, hk8⟩ := hk
-  obtain ⟨hr1, hr2, hr3, hr4, hr5, hr6, hr7⟩ := hr
-  obtain ⟨h1, h2⟩ := hi
+  obtain ⟨hr1, hr2, hr3, hr4, hr5, hr6, hr7, hr8⟩ := hr
+  obtain ⟨h1, h2, h3⟩ := hi
   unfold stepCloseS at h
   repeat' split at h
   all_goals (simp at h; try subst h)
@@ -270,8 +274,8 @@ theorem invW_closeS {s s' : State} {t : Nat} (hk : InvK s) (hr : InvR s) (hi : I
 
 theorem invW_closeR {s s' : State} {t : Nat} (hk : InvK s) (hr : InvR s) (hi : InvW s) (hpc : s.pc t = .hCloseR) (h : stepCloseR s t  = some s') : InvW s' := by
   obtain ⟨hk1, hk2, hk3, hk4, hk5, hk6, hk7, hk8⟩ := hk
-  obtain ⟨hr1, hr2, hr3, hr4, hr5, hr6, hr7⟩ := hr
-  obtain ⟨h1, h2⟩ := hi
+  obtain ⟨hr1, hr2, hr3, hr4, hr5, hr6, hr7, hr8⟩ := hr
+  obtain ⟨h1, h2, h3⟩ := hi
   unfold stepCloseR at h
   repeat' split at h
   all_goals (simp at h; try subst h)
@@ -312,30 +316,30 @@ theorem invW_adv {s s' : State} {t : Nat} (hk : InvK s) (hr : InvR s) (hi : InvW
   case h_28 =>
     simp at h; subst h
     obtain ⟨hk1, hk2, hk3, hk4, hk5, hk6, hk7, hk8⟩ := hk
-    obtain ⟨hr1, hr2, hr3, hr4, hr5, hr6, hr7⟩ := hr
-    obtain ⟨h1, h2⟩ := hi
+    obtain ⟨hr1, hr2, hr3, hr4, hr5, hr6, hr7, hr8⟩ := hr
+    obtain ⟨h1, h2, h3⟩ := hi
     wk_close
   case h_29 =>
     simp at h; subst h
     obtain ⟨hk1, hk2, hk3, hk4, hk5, hk6, hk7, hk8⟩ := hk
-    obtain ⟨hr1, hr2, hr3, hr4, hr5, hr6, hr7⟩ := hr
-    obtain ⟨h1, h2⟩ := hi
+    obtain ⟨hr1, hr2, hr3, hr4, hr5, hr6, hr7, hr8⟩ := hr
+    obtain ⟨h1, h2, h3⟩ := hi
     wk_close
   case h_30 => exact invW_closeS hk hr hi hpc h
   case h_31 => exact invW_closeR hk hr hi hpc h
   case h_32 =>
     simp at h; subst h
     obtain ⟨hk1, hk2, hk3, hk4, hk5, hk6, hk7, hk8⟩ := hk
-    obtain ⟨hr1, hr2, hr3, hr4, hr5, hr6, hr7⟩ := hr
-    obtain ⟨h1, h2⟩ := hi
+    obtain ⟨hr1, hr2, hr3, hr4, hr5, hr6, hr7, hr8⟩ := hr
+    obtain ⟨h1, h2, h3⟩ := hi
     wk_close
   case h_33 => simp at h; subst h; exact invW_hWake hk hr hi hpc
 
 set_option maxHeartbeats 1600000 in
 theorem invW_call {s s' : State} {t : Nat} {op : Op} (hk : InvK s) (hr : InvR s) (hi : InvW s) (h : stepCall s t op = some s') : InvW s' := by
   obtain ⟨hk1, hk2, hk3, hk4, hk5, hk6, hk7, hk8⟩ := hk
-  obtain ⟨hr1, hr2, hr3, hr4, hr5, hr6, hr7⟩ := hr
-  obtain ⟨h1, h2⟩ := hi
+  obtain ⟨hr1, hr2, hr3, hr4, hr5, hr6, hr7, hr8⟩ := hr
+  obtain ⟨h1, h2, h3⟩ := hi
   unfold stepCall at h
   split at h
   · rename_i hr
@@ -349,8 +353,8 @@ theorem invW_call {s s' : State} {t : Nat} {op : Op} (hk : InvK s) (hr : InvR s)
 
 theorem invW_poll {s s' : State} {t : Nat} (hk : InvK s) (hr : InvR s) (hi : InvW s) (hb : Benign s t .poll) (h : stepPoll s t = some s') : InvW s' := by
   obtain ⟨hk1, hk2, hk3, hk4, hk5, hk6, hk7, hk8⟩ := hk
-  obtain ⟨hr1, hr2, hr3, hr4, hr5, hr6, hr7⟩ := hr
-  obtain ⟨h1, h2⟩ := hi
+  obtain ⟨hr1, hr2, hr3, hr4, hr5, hr6, hr7, hr8⟩ := hr
+  obtain ⟨h1, h2, h3⟩ := hi
   unfold stepPoll at h
   repeat' split at h
   all_goals (simp at h; try subst h)
@@ -359,8 +363,8 @@ theorem invW_poll {s s' : State} {t : Nat} (hk : InvK s) (hr : InvR s) (hi : Inv
 
 theorem invW_dropFut {s s' : State} {t : Nat} (hk : InvK s) (hr : InvR s) (hi : InvW s) (hb : Benign s t .dropFut) (h : stepDropFut s t = some s') : InvW s' := by
   obtain ⟨hk1, hk2, hk3, hk4, hk5, hk6, hk7, hk8⟩ := hk
-  obtain ⟨hr1, hr2, hr3, hr4, hr5, hr6, hr7⟩ := hr
-  obtain ⟨h1, h2⟩ := hi
+  obtain ⟨hr1, hr2, hr3, hr4, hr5, hr6, hr7, hr8⟩ := hr
+  obtain ⟨h1, h2, h3⟩ := hi
   unfold stepDropFut at h
   repeat' split at h
   all_goals (simp at h; try subst h)
@@ -369,8 +373,8 @@ theorem invW_dropFut {s s' : State} {t : Nat} (hk : InvK s) (hr : InvR s) (hi : 
 
 theorem invW_spurious {s s' : State} {t : Nat} (hk : InvK s) (hr : InvR s) (hi : InvW s) (h : stepSpurious s t = some s') : InvW s' := by
   obtain ⟨hk1, hk2, hk3, hk4, hk5, hk6, hk7, hk8⟩ := hk
-  obtain ⟨hr1, hr2, hr3, hr4, hr5, hr6, hr7⟩ := hr
-  obtain ⟨h1, h2⟩ := hi
+  obtain ⟨hr1, hr2, hr3, hr4, hr5, hr6, hr7, hr8⟩ := hr
+  obtain ⟨h1, h2, h3⟩ := hi
   unfold stepSpurious at h
   repeat' split at h
   all_goals (simp at h; try subst h)
